@@ -10,6 +10,8 @@ git -C /repo worktree add -q --detach "$WT" HEAD || exit 2
 cleanup() { git -C /repo worktree remove --force "$WT" 2>/dev/null; rm -rf "$WT"; }
 trap cleanup EXIT
 cd "$WT"
+# the demonstration runs from inside the scratch worktree (some demos locate the tree through __file__)
+mkdir -p "$WT/MUTANT"; cp -r "$(dirname "$DEMO")"/. "$WT/MUTANT/"; DEMO="$WT/MUTANT/demo.py"
 echo "== demo without change: $(TQDM_DISABLE=1 PYTHONPATH=$WT timeout 600 /venv/bin/python $DEMO >/dev/null 2>&1; echo $?)"
 git apply "$PATCH" || { echo "patch does not apply"; exit 2; }
 echo "== demo with change:    $(TQDM_DISABLE=1 PYTHONPATH=$WT timeout 600 /venv/bin/python $DEMO >/dev/null 2>&1; echo $?)"
